@@ -33,19 +33,20 @@ type Known struct {
 }
 
 type HarnessSpec struct {
-	Func       string            `json:"func"`
-	Ints       string            `json:"ints"` // "bv" (default) or "int"
-	Stubs      map[string]string `json:"stubs"`
-	Inits      []string          `json:"inits"`
-	MaxLoop    int               `json:"maxloop"`
-	MustEncode []string          `json:"must_encode"`
-	MustReach  []string          `json:"must_reach"`
-	Params     map[string]int    `json:"params"`
-	TimeoutMs  int               `json:"timeout_ms"`
-	MaxPaths   int               `json:"max_paths"`
-	Samples    int               `json:"samples"`
-	Known      []Known           `json:"known"`
-	MakeSliceMax int             `json:"makeslice_max"`
+	Func           string            `json:"func"`
+	Ints           string            `json:"ints"` // "bv" (default) or "int"
+	Stubs          map[string]string `json:"stubs"`
+	Inits          []string          `json:"inits"`
+	MaxLoop        int               `json:"maxloop"`
+	MustEncode     []string          `json:"must_encode"`
+	MustReach      []string          `json:"must_reach"`
+	Params         map[string]int    `json:"params"`
+	TimeoutMs      int               `json:"timeout_ms"`
+	MaxPaths       int               `json:"max_paths"`
+	Samples        int               `json:"samples"`
+	Known          []Known           `json:"known"`
+	MakeSliceMax   int               `json:"makeslice_max"`
+	InjectFailures bool              `json:"inject_failures"`
 }
 
 type Job struct {
@@ -75,29 +76,29 @@ type SampleOut struct {
 }
 
 type HarnessResult struct {
-	Func         string            `json:"func"`
-	Params       map[string]int    `json:"params,omitempty"`
-	Ints         string            `json:"ints"`
-	Status       string            `json:"status"` // ok | findings | inconclusive
-	Inconclusive string            `json:"inconclusive,omitempty"`
-	Paths        int               `json:"paths"`
-	Branches     int               `json:"branches"`
-	Queries      int               `json:"queries"`
-	SolverS      float64           `json:"solver_s"`
-	ExploreS     float64           `json:"explore_s"`
-	Obligations  int               `json:"obligations"`
-	Discharged   int               `json:"discharged"`
-	Reached      []string          `json:"reached"`
-	Encoded      map[string]int    `json:"encoded"`
-	Unwound      []string          `json:"unwound,omitempty"`
-	Blocked      int               `json:"blocked"`
-	Findings     []FindingOut      `json:"findings"`
-	KnownHits    []FindingOut      `json:"known_hits"`
-	KnownGone    []Known           `json:"known_gone,omitempty"`
-	Samples      []SampleOut       `json:"samples"`
-	MaxLoop      int               `json:"maxloop"`
-	Stubs        map[string]string `json:"stubs,omitempty"`
-	ObligationMsgs []string        `json:"obligation_msgs,omitempty"`
+	Func           string            `json:"func"`
+	Params         map[string]int    `json:"params,omitempty"`
+	Ints           string            `json:"ints"`
+	Status         string            `json:"status"` // ok | findings | inconclusive
+	Inconclusive   string            `json:"inconclusive,omitempty"`
+	Paths          int               `json:"paths"`
+	Branches       int               `json:"branches"`
+	Queries        int               `json:"queries"`
+	SolverS        float64           `json:"solver_s"`
+	ExploreS       float64           `json:"explore_s"`
+	Obligations    int               `json:"obligations"`
+	Discharged     int               `json:"discharged"`
+	Reached        []string          `json:"reached"`
+	Encoded        map[string]int    `json:"encoded"`
+	Unwound        []string          `json:"unwound,omitempty"`
+	Blocked        int               `json:"blocked"`
+	Findings       []FindingOut      `json:"findings"`
+	KnownHits      []FindingOut      `json:"known_hits"`
+	KnownGone      []Known           `json:"known_gone,omitempty"`
+	Samples        []SampleOut       `json:"samples"`
+	MaxLoop        int               `json:"maxloop"`
+	Stubs          map[string]string `json:"stubs,omitempty"`
+	ObligationMsgs []string          `json:"obligation_msgs,omitempty"`
 }
 
 type Result struct {
@@ -253,6 +254,7 @@ func runHarness(prog *ssa.Program, fn *ssa.Function, hs HarnessSpec, hr *Harness
 		stubs: map[string]*ssa.Function{}, maxLoop: 70, reached: map[string]bool{}, trace: os.Getenv("TRACE") != "",
 		params: hs.Params, known: hs.Known, knownHit: map[string]bool{}, oblMsgs: map[string]bool{},
 		maxPaths: hs.MaxPaths, nSamples: hs.Samples, makeSliceMax: 8}
+	e.injectFailures = hs.InjectFailures
 	if hs.MakeSliceMax > 0 {
 		e.makeSliceMax = hs.MakeSliceMax
 	}
